@@ -166,6 +166,12 @@ func (c *Chunker) Next() (uint64, []byte, error) {
 		m = len(c.buf)
 	}
 
+	// With min == max there is no position between them to look for a boundary,
+	// every full chunk ends at the upper boundary
+	if int(c.min) >= m {
+		return c.split(m, nil)
+	}
+
 	// Initialize the rolling hash window with the ChunkerWindowSize bytes
 	// immediately prior to min size
 	window := c.buf[c.min-ChunkerWindowSize : c.min]
